@@ -4,7 +4,7 @@
    (Generated/AstroConsts.v); airtovac_R, vactoair_R, filter_band, mask_interp compose them (C19/Model.v). *)
 From Coq Require Import Reals QArith Qreals List Bool ZArith Qabs.
 Import ListNotations.
-From PV Require Import C19.Spec Generated.AstroConsts C19.Model C19.WmeanProofs C19.AirVacProofs C19.FluxProofs.
+From PV Require Import C19.Spec Generated.AstroConsts C19.Model C19.WmeanProofs C19.AirVacProofs C19.FluxProofs C19.LinkProofs.
 
 (* ---- air <-> vacuum (over R, wavelengths in Angstrom) ---- *)
 Open Scope R_scope.
@@ -24,6 +24,12 @@ Theorem C19_mutual_inverse :
   (forall v, 2000 <= vactoair_R v -> v <= 300000 -> Rabs (airtovac_R (vactoair_R v) - v) <= 1 / 1000000).
 Proof. exact mutual_inverse. Qed.
 Print Assumptions C19_mutual_inverse.
+
+(* the executable Q model run against the implementation is the R model of the theorems above *)
+Theorem C19_Q_model_is_R_model : forall a : Q,
+  Q2R (airtovac_Q a) = airtovac_R (Q2R a) /\ Q2R (vactoair_Q a) = vactoair_R (Q2R a).
+Proof. exact Q_models_are_R_models. Qed.
+Print Assumptions C19_Q_model_is_R_model.
 
 (* ---- sdssflux2ab ---- *)
 
